@@ -148,6 +148,50 @@ class Func:
                 st.append(s)
         return seen
 
+    def reach_path_sensitive(self, start, limit=20000):
+        """Blocks reachable from `start`, tracking literal assignments to locals so that a later
+        `switch` on such a local follows only the feasible edge (handles `a || b` joins, where the
+        short-circuit stores a literal bool that is branched on after the join)."""
+        seen = set()
+        out = set()
+        st = [(start, ())]
+        n = 0
+        while st and n < limit:
+            b, state = st.pop()
+            if (b, state) in seen:
+                continue
+            seen.add((b, state))
+            n += 1
+            out.add(b)
+            env = dict(state)
+            blk = self.blocks[b]
+            for s_ in blk["stmts"]:
+                if s_["k"] == "assign" and not s_["place"]["p"]:
+                    l = s_["place"]["l"]
+                    rv = s_["rv"]
+                    c = rv["op"].get("const") if rv["k"] == "use" else None
+                    if c is not None and "bits" in c and "path" not in c and c.get("ty") in ("bool",):
+                        env[l] = c["bits"]
+                    elif rv["k"] == "use" and (rv["op"].get("copy") or rv["op"].get("move")) and \
+                            not (rv["op"].get("copy") or rv["op"].get("move"))["p"] and (rv["op"].get("copy") or rv["op"].get("move"))["l"] in env:
+                        env[l] = env[(rv["op"].get("copy") or rv["op"].get("move"))["l"]]
+                    else:
+                        env.pop(l, None)
+            t = blk["term"]
+            succ = self.succ[b]
+            if t["k"] == "call" and not t["dest"]["p"]:
+                env.pop(t["dest"]["l"], None)
+            if t["k"] == "switch":
+                dp = t["discr"].get("move") or t["discr"].get("copy")
+                if dp is not None and not dp["p"] and dp["l"] in env:
+                    v = env[dp["l"]]
+                    hit = [x[1] for x in t["targets"] if x[0] == v]
+                    succ = hit[:1] if hit else [t["otherwise"]]
+            ns = tuple(sorted(env.items()))
+            for x in succ:
+                st.append((x, ns))
+        return out
+
     def edge_dominates(self, edge, node):
         """True iff every entry->node path uses `edge` (node unreachable once the edge is cut)."""
         if node not in self.live:
